@@ -30,6 +30,8 @@ def import_minecraft():
     os.environ.setdefault('PYCRAFT_VERIF', '1')
     os.environ.setdefault('NO_PROXY', '*')
     sys.dont_write_bytecode = True
+    import warnings
+    warnings.filterwarnings('ignore')
     if REPO not in sys.path:
         sys.path.insert(0, REPO)
     import minecraft
